@@ -228,6 +228,11 @@ def main():
                 o = c.model_validate(w)
                 d = o.model_dump(by_alias=True, exclude_none=True)
                 r.update(ok=True, exc="", typed=typed_tree(o, McpBase), dump=tag(d))
+                try:
+                    # wire names alone (absent optional members then appear as nulls)
+                    r["dump_alias_only"] = tag(o.model_dump(by_alias=True))
+                except Exception as e:
+                    r["dump_alias_only"] = tag({"__raised__": type(e).__name__})
                 if req.get("two_pass"):
                     scramble(o, McpBase)
             except Exception as e:
@@ -485,14 +490,110 @@ def _emit_via_helper(em, idv, payload):
     return cap.msgs[0]
 
 
+TRANSPORT_EMITTERS = ("stdio_writer", "http_post", "sse_post")
+
+
+def transport_outputs(cases):
+    """what the three transports' serialisers put on the wire for a request message (typed model for
+    even case numbers, plain dict for odd ones): one session per transport, messages in case order;
+    returns {case index: decoded wire object | exception}"""
+    import anyio
+    import httpx
+    from harness import vloop
+    from harness.drivers import stdio_drv, httpx_seam
+    from harness.drivers.stdio_drv import idle
+    from harness.drivers.sse_drv import FedStream
+    from chuk_mcp.protocol.messages import json_rpc_message as J
+
+    out = {}
+    by = {k: [i for i, c in enumerate(cases) if c["emitter"] == k] for k in TRANSPORT_EMITTERS}
+
+    def build(i):
+        c = cases[i]
+        idv, payload = untag(c["id"]), untag(c["payload"])
+        if i % 2 == 0:
+            return J.JSONRPCRequest(jsonrpc="2.0", id=idv, method="tools/call", params=payload)
+        d = {"jsonrpc": "2.0", "id": idv, "method": "tools/call"}
+        if payload is not None:
+            d["params"] = payload
+        return d
+
+    async def stdio():
+        from chuk_mcp.transports.stdio.stdio_client import StdioClient
+        with stdio_drv.seam() as procs:
+            client = StdioClient(stdio_drv.params())
+            async with client:
+                rs, ws = client.get_streams()
+                for i in by["stdio_writer"]:
+                    before = len(bytes(procs[0].stdin.data))
+                    try:
+                        await ws.send(build(i))
+                        await idle(3)
+                        new = bytes(procs[0].stdin.data)[before:]
+                        lines = new.split(b"\n")
+                        if len(lines) != 2 or lines[1] != b"":
+                            raise ValueError("not exactly one line: %r" % new[:80])
+                        out[i] = json.loads(lines[0].decode("utf-8"))
+                    except Exception as e:
+                        out[i] = e
+
+    async def http(kind):
+        bodies = []
+        stream = FedStream()
+        stream.feed(b"event: endpoint\ndata: /messages/?session_id=s1\n\n")
+
+        async def handler(request):
+            if request.method == "GET":
+                return httpx.Response(200, headers={"content-type": "text/event-stream"}, stream=stream)
+            bodies.append(request.content)
+            return httpx.Response(202, content=b"")
+
+        with httpx_seam.seam(handler):
+            if kind == "http_post":
+                from chuk_mcp.transports.http.http_client import http_client
+                from chuk_mcp.transports.http.parameters import StreamableHTTPParameters
+                cm = http_client(StreamableHTTPParameters(url="http://verif.invalid/mcp", timeout=0.05))
+            else:
+                from chuk_mcp.transports.sse.sse_client import sse_client
+                from chuk_mcp.transports.sse.parameters import SSEParameters
+                cm = sse_client(SSEParameters(url="http://verif.invalid", timeout=0.05))
+            async with cm as (rs, ws):
+                for i in by[kind]:
+                    n = len(bodies)
+                    try:
+                        await ws.send(build(i))
+                        await anyio.sleep(0.2)          # past the transport's own wait for an answer
+                        if len(bodies) != n + 1:
+                            raise ValueError("%d POSTs for one message" % (len(bodies) - n))
+                        out[i] = json.loads(bodies[n].decode("utf-8"))
+                    except Exception as e:
+                        out[i] = e
+
+    async def main():
+        if by["stdio_writer"]:
+            await stdio()
+        for kind in ("http_post", "sse_post"):
+            if by[kind]:
+                await http(kind)
+
+    if any(by.values()):
+        vloop.run(main)
+    return out
+
+
 def run_emit(cases):
     from chuk_mcp.protocol.messages import json_rpc_message as J
     res = []
-    for c in cases:
+    wire = transport_outputs(cases)
+    for ci, c in enumerate(cases):
         em, idv, payload = c["emitter"], untag(c["id"]), untag(c["payload"])
         r = {"emitter": em, "built": True}
         try:
-            if em == "create_request":
+            if em in TRANSPORT_EMITTERS:
+                m = wire[ci]
+                if isinstance(m, Exception):
+                    raise m
+            elif em == "create_request":
                 m = J.create_request("tools/call", payload, idv)
             elif em == "create_request_token":
                 m = J.create_request("tools/call", payload, idv, progress_token="tok-1")
